@@ -9,13 +9,13 @@ CONSTANTS
   SlotDefs <- FlatSlots
   Sizes <- Sz124
   WWs = {1, 2}
-  MWs = {1, 2}
+  MWs = {1}
   NWs = {1}
   GWs = {1}
   Buds = {0}
   NSAs = {FALSE}
   OptSets <- OptsPlain
-  Budgets = {1, 2, 3, 5, 8, 12}
+  Budgets = {3, 8}
 VIEW MCView
 INVARIANTS TypeOK AtMostOnce ExactlyOnce Unbiased KeptRowsFactorGE1 NoSampleAgentKept SameFactorInLeaf FitsNothingSampled FairShare FixedWithinBudget FairShareRemaining FitIsJustified Monotone KeptWithinBudget QuotaWithinTotal QuotaProportional QuotaFitIsSize QuotaWithinTotalAnyRounding ExportDone
 CHECK_DEADLOCK FALSE
